@@ -2,6 +2,16 @@
 type __ = Obj.t
 let __ = let rec f _ = Obj.repr f in Obj.repr f
 
+(** val implb : bool -> bool -> bool **)
+
+let implb b1 b2 =
+  if b1 then b2 else true
+
+(** val xorb : bool -> bool -> bool **)
+
+let xorb b1 b2 =
+  if b1 then if b2 then false else true else b2
+
 (** val negb : bool -> bool **)
 
 let negb = function
@@ -17,6 +27,15 @@ type nat =
 let option_map f = function
 | Some a -> Some (f a)
 | None -> None
+
+type ('a, 'b) sum =
+| Inl of 'a
+| Inr of 'b
+
+(** val fst : ('a1 * 'a2) -> 'a1 **)
+
+let fst = function
+| (x, _) -> x
 
 (** val snd : ('a1 * 'a2) -> 'a2 **)
 
@@ -41,10 +60,214 @@ type comparison =
 | Lt
 | Gt
 
+type compareSpecT =
+| CompEqT
+| CompLtT
+| CompGtT
+
+(** val compareSpec2Type : comparison -> compareSpecT **)
+
+let compareSpec2Type = function
+| Eq -> CompEqT
+| Lt -> CompLtT
+| Gt -> CompGtT
+
+type 'a compSpecT = compareSpecT
+
+(** val compSpec2Type : 'a1 -> 'a1 -> comparison -> 'a1 compSpecT **)
+
+let compSpec2Type _ _ =
+  compareSpec2Type
+
 (** val id : __ -> __ **)
 
 let id x =
   x
+
+type 'a sig0 = 'a
+  (* singleton inductive, whose constructor was exist *)
+
+
+
+type uint =
+| Nil
+| D0 of uint
+| D1 of uint
+| D2 of uint
+| D3 of uint
+| D4 of uint
+| D5 of uint
+| D6 of uint
+| D7 of uint
+| D8 of uint
+| D9 of uint
+
+type signed_int =
+| Pos of uint
+| Neg of uint
+
+(** val nzhead : uint -> uint **)
+
+let rec nzhead d = match d with
+| D0 d0 -> nzhead d0
+| _ -> d
+
+(** val unorm : uint -> uint **)
+
+let unorm d =
+  match nzhead d with
+  | Nil -> D0 Nil
+  | x -> x
+
+(** val norm : signed_int -> signed_int **)
+
+let norm = function
+| Pos d0 -> Pos (unorm d0)
+| Neg d0 -> (match nzhead d0 with
+             | Nil -> Pos (D0 Nil)
+             | x -> Neg x)
+
+(** val revapp : uint -> uint -> uint **)
+
+let rec revapp d d' =
+  match d with
+  | Nil -> d'
+  | D0 d0 -> revapp d0 (D0 d')
+  | D1 d0 -> revapp d0 (D1 d')
+  | D2 d0 -> revapp d0 (D2 d')
+  | D3 d0 -> revapp d0 (D3 d')
+  | D4 d0 -> revapp d0 (D4 d')
+  | D5 d0 -> revapp d0 (D5 d')
+  | D6 d0 -> revapp d0 (D6 d')
+  | D7 d0 -> revapp d0 (D7 d')
+  | D8 d0 -> revapp d0 (D8 d')
+  | D9 d0 -> revapp d0 (D9 d')
+
+(** val rev : uint -> uint **)
+
+let rev d =
+  revapp d Nil
+
+module Little =
+ struct
+  (** val succ : uint -> uint **)
+
+  let rec succ = function
+  | Nil -> D1 Nil
+  | D0 d0 -> D1 d0
+  | D1 d0 -> D2 d0
+  | D2 d0 -> D3 d0
+  | D3 d0 -> D4 d0
+  | D4 d0 -> D5 d0
+  | D5 d0 -> D6 d0
+  | D6 d0 -> D7 d0
+  | D7 d0 -> D8 d0
+  | D8 d0 -> D9 d0
+  | D9 d0 -> D0 (succ d0)
+ end
+
+type uint0 =
+| Nil0
+| D10 of uint0
+| D11 of uint0
+| D12 of uint0
+| D13 of uint0
+| D14 of uint0
+| D15 of uint0
+| D16 of uint0
+| D17 of uint0
+| D18 of uint0
+| D19 of uint0
+| Da of uint0
+| Db of uint0
+| Dc of uint0
+| Dd of uint0
+| De of uint0
+| Df of uint0
+
+type signed_int0 =
+| Pos0 of uint0
+| Neg0 of uint0
+
+(** val nzhead0 : uint0 -> uint0 **)
+
+let rec nzhead0 d = match d with
+| D10 d0 -> nzhead0 d0
+| _ -> d
+
+(** val unorm0 : uint0 -> uint0 **)
+
+let unorm0 d =
+  match nzhead0 d with
+  | Nil0 -> D10 Nil0
+  | x -> x
+
+(** val norm0 : signed_int0 -> signed_int0 **)
+
+let norm0 = function
+| Pos0 d0 -> Pos0 (unorm0 d0)
+| Neg0 d0 -> (match nzhead0 d0 with
+              | Nil0 -> Pos0 (D10 Nil0)
+              | x -> Neg0 x)
+
+(** val revapp0 : uint0 -> uint0 -> uint0 **)
+
+let rec revapp0 d d' =
+  match d with
+  | Nil0 -> d'
+  | D10 d0 -> revapp0 d0 (D10 d')
+  | D11 d0 -> revapp0 d0 (D11 d')
+  | D12 d0 -> revapp0 d0 (D12 d')
+  | D13 d0 -> revapp0 d0 (D13 d')
+  | D14 d0 -> revapp0 d0 (D14 d')
+  | D15 d0 -> revapp0 d0 (D15 d')
+  | D16 d0 -> revapp0 d0 (D16 d')
+  | D17 d0 -> revapp0 d0 (D17 d')
+  | D18 d0 -> revapp0 d0 (D18 d')
+  | D19 d0 -> revapp0 d0 (D19 d')
+  | Da d0 -> revapp0 d0 (Da d')
+  | Db d0 -> revapp0 d0 (Db d')
+  | Dc d0 -> revapp0 d0 (Dc d')
+  | Dd d0 -> revapp0 d0 (Dd d')
+  | De d0 -> revapp0 d0 (De d')
+  | Df d0 -> revapp0 d0 (Df d')
+
+(** val rev0 : uint0 -> uint0 **)
+
+let rev0 d =
+  revapp0 d Nil0
+
+module Coq_Little =
+ struct
+  (** val succ : uint0 -> uint0 **)
+
+  let rec succ = function
+  | Nil0 -> D11 Nil0
+  | D10 d0 -> D11 d0
+  | D11 d0 -> D12 d0
+  | D12 d0 -> D13 d0
+  | D13 d0 -> D14 d0
+  | D14 d0 -> D15 d0
+  | D15 d0 -> D16 d0
+  | D16 d0 -> D17 d0
+  | D17 d0 -> D18 d0
+  | D18 d0 -> D19 d0
+  | D19 d0 -> Da d0
+  | Da d0 -> Db d0
+  | Db d0 -> Dc d0
+  | Dc d0 -> Dd d0
+  | Dd d0 -> De d0
+  | De d0 -> Df d0
+  | Df d0 -> D10 (succ d0)
+ end
+
+type uint1 =
+| UIntDecimal of uint
+| UIntHexadecimal of uint0
+
+type signed_int1 =
+| IntDecimal of signed_int
+| IntHexadecimal of signed_int0
 
 module Coq__1 = struct
  (** val add : nat -> nat -> nat **)
@@ -71,8 +294,498 @@ type n =
 | N0
 | Npos of positive
 
+(** val compose : ('a2 -> 'a3) -> ('a1 -> 'a2) -> 'a1 -> 'a3 **)
+
+let compose g f x =
+  g (f x)
+
+(** val eqb : bool -> bool -> bool **)
+
+let eqb b1 b2 =
+  if b1 then b2 else if b2 then false else true
+
+type reflect =
+| ReflectT
+| ReflectF
+
+(** val iff_reflect : bool -> reflect **)
+
+let iff_reflect = function
+| true -> ReflectT
+| false -> ReflectF
+
 module Nat =
  struct
+  type t = nat
+
+  (** val zero : nat **)
+
+  let zero =
+    O
+
+  (** val one : nat **)
+
+  let one =
+    S O
+
+  (** val two : nat **)
+
+  let two =
+    S (S O)
+
+  (** val succ : nat -> nat **)
+
+  let succ x =
+    S x
+
+  (** val pred : nat -> nat **)
+
+  let pred n0 = match n0 with
+  | O -> n0
+  | S u -> u
+
+  (** val add : nat -> nat -> nat **)
+
+  let rec add n0 m =
+    match n0 with
+    | O -> m
+    | S p -> S (add p m)
+
+  (** val double : nat -> nat **)
+
+  let double n0 =
+    add n0 n0
+
+  (** val mul : nat -> nat -> nat **)
+
+  let rec mul n0 m =
+    match n0 with
+    | O -> O
+    | S p -> add m (mul p m)
+
+  (** val sub : nat -> nat -> nat **)
+
+  let rec sub n0 m =
+    match n0 with
+    | O -> n0
+    | S k -> (match m with
+              | O -> n0
+              | S l -> sub k l)
+
+  (** val eqb : nat -> nat -> bool **)
+
+  let rec eqb n0 m =
+    match n0 with
+    | O -> (match m with
+            | O -> true
+            | S _ -> false)
+    | S n' -> (match m with
+               | O -> false
+               | S m' -> eqb n' m')
+
+  (** val leb : nat -> nat -> bool **)
+
+  let rec leb n0 m =
+    match n0 with
+    | O -> true
+    | S n' -> (match m with
+               | O -> false
+               | S m' -> leb n' m')
+
+  (** val ltb : nat -> nat -> bool **)
+
+  let ltb n0 m =
+    leb (S n0) m
+
+  (** val compare : nat -> nat -> comparison **)
+
+  let rec compare n0 m =
+    match n0 with
+    | O -> (match m with
+            | O -> Eq
+            | S _ -> Lt)
+    | S n' -> (match m with
+               | O -> Gt
+               | S m' -> compare n' m')
+
+  (** val max : nat -> nat -> nat **)
+
+  let rec max n0 m =
+    match n0 with
+    | O -> m
+    | S n' -> (match m with
+               | O -> n0
+               | S m' -> S (max n' m'))
+
+  (** val min : nat -> nat -> nat **)
+
+  let rec min n0 m =
+    match n0 with
+    | O -> O
+    | S n' -> (match m with
+               | O -> O
+               | S m' -> S (min n' m'))
+
+  (** val even : nat -> bool **)
+
+  let rec even = function
+  | O -> true
+  | S n1 -> (match n1 with
+             | O -> false
+             | S n' -> even n')
+
+  (** val odd : nat -> bool **)
+
+  let odd n0 =
+    negb (even n0)
+
+  (** val pow : nat -> nat -> nat **)
+
+  let rec pow n0 = function
+  | O -> S O
+  | S m0 -> mul n0 (pow n0 m0)
+
+  (** val tail_add : nat -> nat -> nat **)
+
+  let rec tail_add n0 m =
+    match n0 with
+    | O -> m
+    | S n1 -> tail_add n1 (S m)
+
+  (** val tail_addmul : nat -> nat -> nat -> nat **)
+
+  let rec tail_addmul r n0 m =
+    match n0 with
+    | O -> r
+    | S n1 -> tail_addmul (tail_add m r) n1 m
+
+  (** val tail_mul : nat -> nat -> nat **)
+
+  let tail_mul n0 m =
+    tail_addmul O n0 m
+
+  (** val of_uint_acc : uint -> nat -> nat **)
+
+  let rec of_uint_acc d acc =
+    match d with
+    | Nil -> acc
+    | D0 d0 ->
+      of_uint_acc d0 (tail_mul (S (S (S (S (S (S (S (S (S (S O)))))))))) acc)
+    | D1 d0 ->
+      of_uint_acc d0 (S
+        (tail_mul (S (S (S (S (S (S (S (S (S (S O)))))))))) acc))
+    | D2 d0 ->
+      of_uint_acc d0 (S (S
+        (tail_mul (S (S (S (S (S (S (S (S (S (S O)))))))))) acc)))
+    | D3 d0 ->
+      of_uint_acc d0 (S (S (S
+        (tail_mul (S (S (S (S (S (S (S (S (S (S O)))))))))) acc))))
+    | D4 d0 ->
+      of_uint_acc d0 (S (S (S (S
+        (tail_mul (S (S (S (S (S (S (S (S (S (S O)))))))))) acc)))))
+    | D5 d0 ->
+      of_uint_acc d0 (S (S (S (S (S
+        (tail_mul (S (S (S (S (S (S (S (S (S (S O)))))))))) acc))))))
+    | D6 d0 ->
+      of_uint_acc d0 (S (S (S (S (S (S
+        (tail_mul (S (S (S (S (S (S (S (S (S (S O)))))))))) acc)))))))
+    | D7 d0 ->
+      of_uint_acc d0 (S (S (S (S (S (S (S
+        (tail_mul (S (S (S (S (S (S (S (S (S (S O)))))))))) acc))))))))
+    | D8 d0 ->
+      of_uint_acc d0 (S (S (S (S (S (S (S (S
+        (tail_mul (S (S (S (S (S (S (S (S (S (S O)))))))))) acc)))))))))
+    | D9 d0 ->
+      of_uint_acc d0 (S (S (S (S (S (S (S (S (S
+        (tail_mul (S (S (S (S (S (S (S (S (S (S O)))))))))) acc))))))))))
+
+  (** val of_uint : uint -> nat **)
+
+  let of_uint d =
+    of_uint_acc d O
+
+  (** val of_hex_uint_acc : uint0 -> nat -> nat **)
+
+  let rec of_hex_uint_acc d acc =
+    match d with
+    | Nil0 -> acc
+    | D10 d0 ->
+      of_hex_uint_acc d0
+        (tail_mul (S (S (S (S (S (S (S (S (S (S (S (S (S (S (S (S
+          O)))))))))))))))) acc)
+    | D11 d0 ->
+      of_hex_uint_acc d0 (S
+        (tail_mul (S (S (S (S (S (S (S (S (S (S (S (S (S (S (S (S
+          O)))))))))))))))) acc))
+    | D12 d0 ->
+      of_hex_uint_acc d0 (S (S
+        (tail_mul (S (S (S (S (S (S (S (S (S (S (S (S (S (S (S (S
+          O)))))))))))))))) acc)))
+    | D13 d0 ->
+      of_hex_uint_acc d0 (S (S (S
+        (tail_mul (S (S (S (S (S (S (S (S (S (S (S (S (S (S (S (S
+          O)))))))))))))))) acc))))
+    | D14 d0 ->
+      of_hex_uint_acc d0 (S (S (S (S
+        (tail_mul (S (S (S (S (S (S (S (S (S (S (S (S (S (S (S (S
+          O)))))))))))))))) acc)))))
+    | D15 d0 ->
+      of_hex_uint_acc d0 (S (S (S (S (S
+        (tail_mul (S (S (S (S (S (S (S (S (S (S (S (S (S (S (S (S
+          O)))))))))))))))) acc))))))
+    | D16 d0 ->
+      of_hex_uint_acc d0 (S (S (S (S (S (S
+        (tail_mul (S (S (S (S (S (S (S (S (S (S (S (S (S (S (S (S
+          O)))))))))))))))) acc)))))))
+    | D17 d0 ->
+      of_hex_uint_acc d0 (S (S (S (S (S (S (S
+        (tail_mul (S (S (S (S (S (S (S (S (S (S (S (S (S (S (S (S
+          O)))))))))))))))) acc))))))))
+    | D18 d0 ->
+      of_hex_uint_acc d0 (S (S (S (S (S (S (S (S
+        (tail_mul (S (S (S (S (S (S (S (S (S (S (S (S (S (S (S (S
+          O)))))))))))))))) acc)))))))))
+    | D19 d0 ->
+      of_hex_uint_acc d0 (S (S (S (S (S (S (S (S (S
+        (tail_mul (S (S (S (S (S (S (S (S (S (S (S (S (S (S (S (S
+          O)))))))))))))))) acc))))))))))
+    | Da d0 ->
+      of_hex_uint_acc d0 (S (S (S (S (S (S (S (S (S (S
+        (tail_mul (S (S (S (S (S (S (S (S (S (S (S (S (S (S (S (S
+          O)))))))))))))))) acc)))))))))))
+    | Db d0 ->
+      of_hex_uint_acc d0 (S (S (S (S (S (S (S (S (S (S (S
+        (tail_mul (S (S (S (S (S (S (S (S (S (S (S (S (S (S (S (S
+          O)))))))))))))))) acc))))))))))))
+    | Dc d0 ->
+      of_hex_uint_acc d0 (S (S (S (S (S (S (S (S (S (S (S (S
+        (tail_mul (S (S (S (S (S (S (S (S (S (S (S (S (S (S (S (S
+          O)))))))))))))))) acc)))))))))))))
+    | Dd d0 ->
+      of_hex_uint_acc d0 (S (S (S (S (S (S (S (S (S (S (S (S (S
+        (tail_mul (S (S (S (S (S (S (S (S (S (S (S (S (S (S (S (S
+          O)))))))))))))))) acc))))))))))))))
+    | De d0 ->
+      of_hex_uint_acc d0 (S (S (S (S (S (S (S (S (S (S (S (S (S (S
+        (tail_mul (S (S (S (S (S (S (S (S (S (S (S (S (S (S (S (S
+          O)))))))))))))))) acc)))))))))))))))
+    | Df d0 ->
+      of_hex_uint_acc d0 (S (S (S (S (S (S (S (S (S (S (S (S (S (S (S
+        (tail_mul (S (S (S (S (S (S (S (S (S (S (S (S (S (S (S (S
+          O)))))))))))))))) acc))))))))))))))))
+
+  (** val of_hex_uint : uint0 -> nat **)
+
+  let of_hex_uint d =
+    of_hex_uint_acc d O
+
+  (** val of_num_uint : uint1 -> nat **)
+
+  let of_num_uint = function
+  | UIntDecimal d0 -> of_uint d0
+  | UIntHexadecimal d0 -> of_hex_uint d0
+
+  (** val to_little_uint : nat -> uint -> uint **)
+
+  let rec to_little_uint n0 acc =
+    match n0 with
+    | O -> acc
+    | S n1 -> to_little_uint n1 (Little.succ acc)
+
+  (** val to_uint : nat -> uint **)
+
+  let to_uint n0 =
+    rev (to_little_uint n0 (D0 Nil))
+
+  (** val to_little_hex_uint : nat -> uint0 -> uint0 **)
+
+  let rec to_little_hex_uint n0 acc =
+    match n0 with
+    | O -> acc
+    | S n1 -> to_little_hex_uint n1 (Coq_Little.succ acc)
+
+  (** val to_hex_uint : nat -> uint0 **)
+
+  let to_hex_uint n0 =
+    rev0 (to_little_hex_uint n0 (D10 Nil0))
+
+  (** val to_num_uint : nat -> uint1 **)
+
+  let to_num_uint n0 =
+    UIntDecimal (to_uint n0)
+
+  (** val to_num_hex_uint : nat -> uint1 **)
+
+  let to_num_hex_uint n0 =
+    UIntHexadecimal (to_hex_uint n0)
+
+  (** val of_int : signed_int -> nat option **)
+
+  let of_int d =
+    match norm d with
+    | Pos u -> Some (of_uint u)
+    | Neg _ -> None
+
+  (** val of_hex_int : signed_int0 -> nat option **)
+
+  let of_hex_int d =
+    match norm0 d with
+    | Pos0 u -> Some (of_hex_uint u)
+    | Neg0 _ -> None
+
+  (** val of_num_int : signed_int1 -> nat option **)
+
+  let of_num_int = function
+  | IntDecimal d0 -> of_int d0
+  | IntHexadecimal d0 -> of_hex_int d0
+
+  (** val to_int : nat -> signed_int **)
+
+  let to_int n0 =
+    Pos (to_uint n0)
+
+  (** val to_hex_int : nat -> signed_int0 **)
+
+  let to_hex_int n0 =
+    Pos0 (to_hex_uint n0)
+
+  (** val to_num_int : nat -> signed_int1 **)
+
+  let to_num_int n0 =
+    IntDecimal (to_int n0)
+
+  (** val divmod : nat -> nat -> nat -> nat -> nat * nat **)
+
+  let rec divmod x y q u =
+    match x with
+    | O -> (q, u)
+    | S x' ->
+      (match u with
+       | O -> divmod x' y (S q) y
+       | S u' -> divmod x' y q u')
+
+  (** val div : nat -> nat -> nat **)
+
+  let div x y = match y with
+  | O -> y
+  | S y' -> fst (divmod x y' O y')
+
+  (** val modulo : nat -> nat -> nat **)
+
+  let modulo x = function
+  | O -> x
+  | S y' -> sub y' (snd (divmod x y' O y'))
+
+  (** val gcd : nat -> nat -> nat **)
+
+  let rec gcd a b =
+    match a with
+    | O -> b
+    | S a' -> gcd (modulo b (S a')) (S a')
+
+  (** val square : nat -> nat **)
+
+  let square n0 =
+    mul n0 n0
+
+  (** val sqrt_iter : nat -> nat -> nat -> nat -> nat **)
+
+  let rec sqrt_iter k p q r =
+    match k with
+    | O -> p
+    | S k' ->
+      (match r with
+       | O -> sqrt_iter k' (S p) (S (S q)) (S (S q))
+       | S r' -> sqrt_iter k' p q r')
+
+  (** val sqrt : nat -> nat **)
+
+  let sqrt n0 =
+    sqrt_iter n0 O O O
+
+  (** val log2_iter : nat -> nat -> nat -> nat -> nat **)
+
+  let rec log2_iter k p q r =
+    match k with
+    | O -> p
+    | S k' ->
+      (match r with
+       | O -> log2_iter k' (S p) (S q) q
+       | S r' -> log2_iter k' p (S q) r')
+
+  (** val log2 : nat -> nat **)
+
+  let log2 n0 =
+    log2_iter (pred n0) O (S O) O
+
+  (** val iter : nat -> ('a1 -> 'a1) -> 'a1 -> 'a1 **)
+
+  let rec iter n0 f x =
+    match n0 with
+    | O -> x
+    | S n1 -> f (iter n1 f x)
+
+  (** val div2 : nat -> nat **)
+
+  let rec div2 = function
+  | O -> O
+  | S n1 -> (match n1 with
+             | O -> O
+             | S n' -> S (div2 n'))
+
+  (** val testbit : nat -> nat -> bool **)
+
+  let rec testbit a = function
+  | O -> odd a
+  | S n1 -> testbit (div2 a) n1
+
+  (** val shiftl : nat -> nat -> nat **)
+
+  let rec shiftl a = function
+  | O -> a
+  | S n1 -> double (shiftl a n1)
+
+  (** val shiftr : nat -> nat -> nat **)
+
+  let rec shiftr a = function
+  | O -> a
+  | S n1 -> div2 (shiftr a n1)
+
+  (** val bitwise : (bool -> bool -> bool) -> nat -> nat -> nat -> nat **)
+
+  let rec bitwise op n0 a b =
+    match n0 with
+    | O -> O
+    | S n' ->
+      add (if op (odd a) (odd b) then S O else O)
+        (mul (S (S O)) (bitwise op n' (div2 a) (div2 b)))
+
+  (** val coq_land : nat -> nat -> nat **)
+
+  let coq_land a b =
+    bitwise (&&) a a b
+
+  (** val coq_lor : nat -> nat -> nat **)
+
+  let coq_lor a b =
+    bitwise (||) (max a b) a b
+
+  (** val ldiff : nat -> nat -> nat **)
+
+  let ldiff a b =
+    bitwise (fun b0 b' -> (&&) b0 (negb b')) a a b
+
+  (** val coq_lxor : nat -> nat -> nat **)
+
+  let coq_lxor a b =
+    bitwise xorb (max a b) a b
+
+  (** val recursion : 'a1 -> (nat -> 'a1 -> 'a1) -> nat -> 'a1 **)
+
+  let rec recursion x f0 = function
+  | O -> x
+  | S n1 -> f0 n1 (recursion x f0 n1)
+
   (** val eq_dec : nat -> nat -> bool **)
 
   let rec eq_dec n0 m =
@@ -83,6 +796,274 @@ module Nat =
     | S n1 -> (match m with
                | O -> false
                | S n2 -> eq_dec n1 n2)
+
+  (** val leb_spec0 : nat -> nat -> reflect **)
+
+  let leb_spec0 x y =
+    iff_reflect (leb x y)
+
+  (** val ltb_spec0 : nat -> nat -> reflect **)
+
+  let ltb_spec0 x y =
+    iff_reflect (ltb x y)
+
+  module Private_OrderTac =
+   struct
+    module IsTotal =
+     struct
+     end
+
+    module Tac =
+     struct
+     end
+   end
+
+  module Private_Tac =
+   struct
+   end
+
+  module Private_Dec =
+   struct
+    (** val max_case_strong :
+        nat -> nat -> (nat -> nat -> __ -> 'a1 -> 'a1) -> (__ -> 'a1) -> (__
+        -> 'a1) -> 'a1 **)
+
+    let max_case_strong n0 m compat hl hr =
+      let c = compSpec2Type n0 m (compare n0 m) in
+      (match c with
+       | CompGtT -> compat n0 (max n0 m) __ (hl __)
+       | _ -> compat m (max n0 m) __ (hr __))
+
+    (** val max_case :
+        nat -> nat -> (nat -> nat -> __ -> 'a1 -> 'a1) -> 'a1 -> 'a1 -> 'a1 **)
+
+    let max_case n0 m x x0 x1 =
+      max_case_strong n0 m x (fun _ -> x0) (fun _ -> x1)
+
+    (** val max_dec : nat -> nat -> bool **)
+
+    let max_dec n0 m =
+      max_case n0 m (fun _ _ _ h0 -> h0) true false
+
+    (** val min_case_strong :
+        nat -> nat -> (nat -> nat -> __ -> 'a1 -> 'a1) -> (__ -> 'a1) -> (__
+        -> 'a1) -> 'a1 **)
+
+    let min_case_strong n0 m compat hl hr =
+      let c = compSpec2Type n0 m (compare n0 m) in
+      (match c with
+       | CompGtT -> compat m (min n0 m) __ (hr __)
+       | _ -> compat n0 (min n0 m) __ (hl __))
+
+    (** val min_case :
+        nat -> nat -> (nat -> nat -> __ -> 'a1 -> 'a1) -> 'a1 -> 'a1 -> 'a1 **)
+
+    let min_case n0 m x x0 x1 =
+      min_case_strong n0 m x (fun _ -> x0) (fun _ -> x1)
+
+    (** val min_dec : nat -> nat -> bool **)
+
+    let min_dec n0 m =
+      min_case n0 m (fun _ _ _ h0 -> h0) true false
+   end
+
+  (** val max_case_strong :
+      nat -> nat -> (__ -> 'a1) -> (__ -> 'a1) -> 'a1 **)
+
+  let max_case_strong n0 m x x0 =
+    Private_Dec.max_case_strong n0 m (fun _ _ _ x1 -> x1) x x0
+
+  (** val max_case : nat -> nat -> 'a1 -> 'a1 -> 'a1 **)
+
+  let max_case n0 m x x0 =
+    max_case_strong n0 m (fun _ -> x) (fun _ -> x0)
+
+  (** val max_dec : nat -> nat -> bool **)
+
+  let max_dec =
+    Private_Dec.max_dec
+
+  (** val min_case_strong :
+      nat -> nat -> (__ -> 'a1) -> (__ -> 'a1) -> 'a1 **)
+
+  let min_case_strong n0 m x x0 =
+    Private_Dec.min_case_strong n0 m (fun _ _ _ x1 -> x1) x x0
+
+  (** val min_case : nat -> nat -> 'a1 -> 'a1 -> 'a1 **)
+
+  let min_case n0 m x x0 =
+    min_case_strong n0 m (fun _ -> x) (fun _ -> x0)
+
+  (** val min_dec : nat -> nat -> bool **)
+
+  let min_dec =
+    Private_Dec.min_dec
+
+  module Private_Parity =
+   struct
+   end
+
+  module Private_NZPow =
+   struct
+   end
+
+  module Private_NZSqrt =
+   struct
+   end
+
+  (** val sqrt_up : nat -> nat **)
+
+  let sqrt_up a =
+    match compare O a with
+    | Lt -> S (sqrt (pred a))
+    | _ -> O
+
+  (** val log2_up : nat -> nat **)
+
+  let log2_up a =
+    match compare (S O) a with
+    | Lt -> S (log2 (pred a))
+    | _ -> O
+
+  module Private_NZDiv =
+   struct
+   end
+
+  (** val lcm : nat -> nat -> nat **)
+
+  let lcm a b =
+    mul a (div b (gcd a b))
+
+  (** val eqb_spec : nat -> nat -> reflect **)
+
+  let eqb_spec x y =
+    iff_reflect (eqb x y)
+
+  (** val b2n : bool -> nat **)
+
+  let b2n = function
+  | true -> S O
+  | false -> O
+
+  (** val setbit : nat -> nat -> nat **)
+
+  let setbit a n0 =
+    coq_lor a (shiftl (S O) n0)
+
+  (** val clearbit : nat -> nat -> nat **)
+
+  let clearbit a n0 =
+    ldiff a (shiftl (S O) n0)
+
+  (** val ones : nat -> nat **)
+
+  let ones n0 =
+    pred (shiftl (S O) n0)
+
+  (** val lnot : nat -> nat -> nat **)
+
+  let lnot a n0 =
+    coq_lxor a (ones n0)
+
+  (** val coq_Even_Odd_dec : nat -> bool **)
+
+  let rec coq_Even_Odd_dec = function
+  | O -> true
+  | S n1 -> if coq_Even_Odd_dec n1 then false else true
+
+  type coq_EvenT = nat
+
+  type coq_OddT = nat
+
+  (** val coq_EvenT_0 : coq_EvenT **)
+
+  let coq_EvenT_0 =
+    O
+
+  (** val coq_EvenT_2 : nat -> coq_EvenT -> coq_EvenT **)
+
+  let coq_EvenT_2 _ h0 =
+    S h0
+
+  (** val coq_OddT_1 : coq_OddT **)
+
+  let coq_OddT_1 =
+    O
+
+  (** val coq_OddT_2 : nat -> coq_OddT -> coq_OddT **)
+
+  let coq_OddT_2 _ h0 =
+    S h0
+
+  (** val coq_EvenT_S_OddT : nat -> coq_EvenT -> coq_OddT **)
+
+  let coq_EvenT_S_OddT _ = function
+  | O -> assert false (* absurd case *)
+  | S n0 -> n0
+
+  (** val coq_OddT_S_EvenT : nat -> coq_OddT -> coq_EvenT **)
+
+  let coq_OddT_S_EvenT _ h =
+    h
+
+  (** val even_EvenT : nat -> coq_EvenT **)
+
+  let rec even_EvenT = function
+  | O -> coq_EvenT_0
+  | S n1 ->
+    (match n1 with
+     | O -> assert false (* absurd case *)
+     | S n2 -> let he = even_EvenT n2 in coq_EvenT_2 n2 he)
+
+  (** val odd_OddT : nat -> coq_OddT **)
+
+  let rec odd_OddT = function
+  | O -> assert false (* absurd case *)
+  | S n1 ->
+    (match n1 with
+     | O -> coq_OddT_1
+     | S n2 -> let he = odd_OddT n2 in coq_OddT_2 n2 he)
+
+  (** val coq_Even_EvenT : nat -> coq_EvenT **)
+
+  let coq_Even_EvenT =
+    even_EvenT
+
+  (** val coq_Odd_OddT : nat -> coq_OddT **)
+
+  let coq_Odd_OddT =
+    odd_OddT
+
+  (** val coq_EvenT_OddT_dec : nat -> (coq_EvenT, coq_OddT) sum **)
+
+  let coq_EvenT_OddT_dec n0 =
+    if even n0 then Inl (even_EvenT n0) else Inr (odd_OddT n0)
+
+  (** val coq_OddT_EvenT_rect :
+      (nat -> coq_EvenT -> 'a2 -> 'a1) -> 'a2 -> (nat -> coq_OddT -> 'a1 ->
+      'a2) -> nat -> coq_OddT -> 'a1 **)
+
+  let rec coq_OddT_EvenT_rect hQP hQ0 hPQ n0 h =
+    match n0 with
+    | O -> assert false (* absurd case *)
+    | S n1 ->
+      (match n1 with
+       | O -> hQP O coq_EvenT_0 hQ0
+       | S n2 ->
+         let hES = coq_OddT_S_EvenT (S n2) h in
+         let hO = coq_EvenT_S_OddT n2 hES in
+         hQP (S n2) hES (hPQ n2 hO (coq_OddT_EvenT_rect hQP hQ0 hPQ n2 hO)))
+
+  (** val coq_EvenT_OddT_rect :
+      (nat -> coq_EvenT -> 'a2 -> 'a1) -> 'a2 -> (nat -> coq_OddT -> 'a1 ->
+      'a2) -> nat -> coq_EvenT -> 'a2 **)
+
+  let coq_EvenT_OddT_rect hQP hQ0 hPQ n0 hES =
+    match n0 with
+    | O -> hQ0
+    | S n1 ->
+      let hO = coq_EvenT_S_OddT n1 hES in
+      hPQ n1 hO (coq_OddT_EvenT_rect hQP hQ0 hPQ n1 hO)
  end
 
 module Pos =
@@ -502,12 +1483,42 @@ let tl = function
 | [] -> []
 | _ :: m -> m
 
+(** val concat : 'a1 list list -> 'a1 list **)
+
+let rec concat = function
+| [] -> []
+| x :: l0 -> app x (concat l0)
+
+(** val map : ('a1 -> 'a2) -> 'a1 list -> 'a2 list **)
+
+let rec map f = function
+| [] -> []
+| a :: t0 -> (f a) :: (map f t0)
+
 (** val fold_left : ('a1 -> 'a2 -> 'a1) -> 'a2 list -> 'a1 -> 'a1 **)
 
 let rec fold_left f l a0 =
   match l with
   | [] -> a0
-  | b :: t -> fold_left f t (f a0 b)
+  | b :: t0 -> fold_left f t0 (f a0 b)
+
+(** val fold_right : ('a2 -> 'a1 -> 'a1) -> 'a1 -> 'a2 list -> 'a1 **)
+
+let rec fold_right f a0 = function
+| [] -> a0
+| b :: t0 -> f b (fold_right f a0 t0)
+
+(** val existsb : ('a1 -> bool) -> 'a1 list -> bool **)
+
+let rec existsb f = function
+| [] -> false
+| a :: l0 -> (||) (f a) (existsb f l0)
+
+(** val forallb : ('a1 -> bool) -> 'a1 list -> bool **)
+
+let rec forallb f = function
+| [] -> true
+| a :: l0 -> (&&) (f a) (forallb f l0)
 
 type mark =
 | NM
@@ -765,11 +1776,18 @@ type ('k, 'a, 'm) alter = ('a -> 'a) -> 'k -> 'm -> 'm
 let alter0 alter1 =
   alter1
 
+module Coq_Nat = Nat
+
 (** val not_dec : decision -> decision **)
 
 let not_dec = function
 | true -> false
 | false -> true
+
+(** val bool_eq_dec : (bool, bool) relDecision **)
+
+let bool_eq_dec x y =
+  if x then if y then true else false else if y then false else true
 
 (** val bool_decide : decision -> bool **)
 
@@ -800,7 +1818,7 @@ let option_join = function
 let option_fmap =
   option_map
 
-module Coq_Nat =
+module Coq0_Nat =
  struct
   (** val eq_dec : (nat, nat) relDecision **)
 
@@ -869,6 +1887,12 @@ let rec list_omap f = function
   (match f x with
    | Some y -> y :: (list_omap f l0)
    | None -> list_omap f l0)
+
+(** val imap : (nat -> 'a1 -> 'a2) -> 'a1 list -> 'a2 list **)
+
+let rec imap f = function
+| [] -> []
+| x :: l0 -> (f O x) :: (imap (compose f (fun x0 -> S x0)) l0)
 
 type ('r, 't) setter = ('t -> 't) -> 'r -> 'r
 
@@ -1019,7 +2043,8 @@ type machine = { heap : obj list; pc : id0 list; pc_size : n;
                  values : id0 option list; bag : id0 list;
                  wparam : wref list; fuse_trace : n; fuse_fin : n;
                  fuse_drop : n; fuse_action : n; fuse_closure : n;
-                 panicking : bool; next_aid : nat; log : event list }
+                 panicking : bool; next_aid : nat; log : event list;
+                 dead : id0 list }
 
 type outcome =
 | ONormal
@@ -1047,7 +2072,7 @@ let init k =
     (replicate nslots None); values = (replicate nslots None); bag = [];
     wparam = []; fuse_trace = N0; fuse_fin = N0; fuse_drop = N0;
     fuse_action = N0; fuse_closure = N0; panicking = false; next_aid = O;
-    log = [] }
+    log = []; dead = [] }
 
 (** val emit : event -> machine -> machine **)
 
@@ -1063,7 +2088,7 @@ let emit e m =
     wparam = x.wparam; fuse_trace = x.fuse_trace; fuse_fin = x.fuse_fin;
     fuse_drop = x.fuse_drop; fuse_action = x.fuse_action; fuse_closure =
     x.fuse_closure; panicking = x.panicking; next_aid = x.next_aid; log =
-    (l x) })) (fun x -> e :: x) m
+    (l x); dead = x.dead })) (fun x -> e :: x) m
 
 (** val emit_bad : bad -> nat -> machine -> machine **)
 
@@ -1089,7 +2114,7 @@ let upd o f m =
     wparam = x.wparam; fuse_trace = x.fuse_trace; fuse_fin = x.fuse_fin;
     fuse_drop = x.fuse_drop; fuse_action = x.fuse_action; fuse_closure =
     x.fuse_closure; panicking = x.panicking; next_aid = x.next_aid; log =
-    x.log })) (alter0 list_alter f o) m
+    x.log; dead = x.dead })) (alter0 list_alter f o) m
 
 (** val uhdr : id0 -> (hdr -> hdr) -> machine -> machine **)
 
@@ -1160,7 +2185,7 @@ let set_fuse k n0 m =
       wparam = x.wparam; fuse_trace = (n1 x); fuse_fin = x.fuse_fin;
       fuse_drop = x.fuse_drop; fuse_action = x.fuse_action; fuse_closure =
       x.fuse_closure; panicking = x.panicking; next_aid = x.next_aid; log =
-      x.log })) (fun _ -> n0) m
+      x.log; dead = x.dead })) (fun _ -> n0) m
   | KFin ->
     set (fun m0 -> m0.fuse_fin) (fun f ->
       let n1 = fun r -> f r.fuse_fin in
@@ -1173,7 +2198,7 @@ let set_fuse k n0 m =
       wparam = x.wparam; fuse_trace = x.fuse_trace; fuse_fin = (n1 x);
       fuse_drop = x.fuse_drop; fuse_action = x.fuse_action; fuse_closure =
       x.fuse_closure; panicking = x.panicking; next_aid = x.next_aid; log =
-      x.log })) (fun _ -> n0) m
+      x.log; dead = x.dead })) (fun _ -> n0) m
   | KDrop ->
     set (fun m0 -> m0.fuse_drop) (fun f ->
       let n1 = fun r -> f r.fuse_drop in
@@ -1186,7 +2211,7 @@ let set_fuse k n0 m =
       wparam = x.wparam; fuse_trace = x.fuse_trace; fuse_fin = x.fuse_fin;
       fuse_drop = (n1 x); fuse_action = x.fuse_action; fuse_closure =
       x.fuse_closure; panicking = x.panicking; next_aid = x.next_aid; log =
-      x.log })) (fun _ -> n0) m
+      x.log; dead = x.dead })) (fun _ -> n0) m
   | KAction ->
     set (fun m0 -> m0.fuse_action) (fun f ->
       let n1 = fun r -> f r.fuse_action in
@@ -1199,7 +2224,7 @@ let set_fuse k n0 m =
       wparam = x.wparam; fuse_trace = x.fuse_trace; fuse_fin = x.fuse_fin;
       fuse_drop = x.fuse_drop; fuse_action = (n1 x); fuse_closure =
       x.fuse_closure; panicking = x.panicking; next_aid = x.next_aid; log =
-      x.log })) (fun _ -> n0) m
+      x.log; dead = x.dead })) (fun _ -> n0) m
   | KClosure ->
     set (fun m0 -> m0.fuse_closure) (fun f ->
       let n1 = fun r -> f r.fuse_closure in
@@ -1211,8 +2236,8 @@ let set_fuse k n0 m =
       wslots = x.wslots; cslots = x.cslots; values = x.values; bag = x.bag;
       wparam = x.wparam; fuse_trace = x.fuse_trace; fuse_fin = x.fuse_fin;
       fuse_drop = x.fuse_drop; fuse_action = x.fuse_action; fuse_closure =
-      (n1 x); panicking = x.panicking; next_aid = x.next_aid; log = x.log }))
-      (fun _ -> n0) m
+      (n1 x); panicking = x.panicking; next_aid = x.next_aid; log = x.log;
+      dead = x.dead })) (fun _ -> n0) m
 
 (** val tick : cbkind -> machine -> machine * bool **)
 
@@ -1231,7 +2256,7 @@ let raise m =
 
 let remove_id x l =
   filter0 (fun _ -> list_filter) (fun x0 ->
-    not_dec (decide_rel Coq_Nat.eq_dec x0 x)) l
+    not_dec (decide_rel Coq0_Nat.eq_dec x0 x)) l
 
 (** val dec_size : id0 -> machine -> machine **)
 
@@ -1249,8 +2274,8 @@ let dec_size o m =
          bag = x.bag; wparam = x.wparam; fuse_trace = x.fuse_trace;
          fuse_fin = x.fuse_fin; fuse_drop = x.fuse_drop; fuse_action =
          x.fuse_action; fuse_closure = x.fuse_closure; panicking =
-         x.panicking; next_aid = x.next_aid; log = x.log })) (fun n0 ->
-         N.sub n0 (Npos XH)) m
+         x.panicking; next_aid = x.next_aid; log = x.log; dead = x.dead }))
+         (fun n0 -> N.sub n0 (Npos XH)) m
 
 (** val remove_from_list : id0 -> machine -> machine **)
 
@@ -1270,8 +2295,8 @@ let remove_from_list o m =
                 wparam = x.wparam; fuse_trace = x.fuse_trace; fuse_fin =
                 x.fuse_fin; fuse_drop = x.fuse_drop; fuse_action =
                 x.fuse_action; fuse_closure = x.fuse_closure; panicking =
-                x.panicking; next_aid = x.next_aid; log = x.log }))
-                (remove_id o) (uhdr o (set_mark NM) m))
+                x.panicking; next_aid = x.next_aid; log = x.log; dead =
+                x.dead })) (remove_id o) (uhdr o (set_mark NM) m))
        else m
   else m
 
@@ -1300,7 +2325,8 @@ let add_to_list o m =
                 wparam = x.wparam; fuse_trace = x.fuse_trace; fuse_fin =
                 x.fuse_fin; fuse_drop = x.fuse_drop; fuse_action =
                 x.fuse_action; fuse_closure = x.fuse_closure; panicking =
-                x.panicking; next_aid = x.next_aid; log = x.log })) N.succ
+                x.panicking; next_aid = x.next_aid; log = x.log; dead =
+                x.dead })) N.succ
                 (set (fun m1 -> m1.pc) (fun f ->
                   let l = fun r -> f r.pc in
                   (fun x -> { heap = x.heap; pc = (l x); pc_size = x.pc_size;
@@ -1314,7 +2340,8 @@ let add_to_list o m =
                   x.fuse_trace; fuse_fin = x.fuse_fin; fuse_drop =
                   x.fuse_drop; fuse_action = x.fuse_action; fuse_closure =
                   x.fuse_closure; panicking = x.panicking; next_aid =
-                  x.next_aid; log = x.log })) (fun x -> o :: x) m0))
+                  x.next_aid; log = x.log; dead = x.dead })) (fun x ->
+                  o :: x) m0))
        else m
 
 (** val dec_rc_m : id0 -> machine -> machine **)
@@ -1361,7 +2388,8 @@ let dealloc k o m =
           x0.wparam; fuse_trace = x0.fuse_trace; fuse_fin = x0.fuse_fin;
           fuse_drop = x0.fuse_drop; fuse_action = x0.fuse_action;
           fuse_closure = x0.fuse_closure; panicking = x0.panicking;
-          next_aid = x0.next_aid; log = x0.log })) (fun a -> N.sub a sz) m1))
+          next_aid = x0.next_aid; log = x0.log; dead = x0.dead })) (fun a ->
+          N.sub a sz) m1))
   | None -> emit_bad BadState o m
 
 (** val sfree : id0 -> machine -> machine **)
@@ -1588,7 +2616,7 @@ let resolve self l m =
   match l with
   | LS i ->
     (m,
-      (if decide (decide_rel Coq_Nat.lt_dec i nslots)
+      (if decide (decide_rel Coq0_Nat.lt_dec i nslots)
        then Some (RSlot i)
        else None))
   | LFS j ->
@@ -1597,7 +2625,7 @@ let resolve self l m =
        (m,
          (match get m o with
           | Some x ->
-            if decide (decide_rel Coq_Nat.lt_dec j (length x.o_fields))
+            if decide (decide_rel Coq0_Nat.lt_dec j (length x.o_fields))
             then Some (RField (o, j))
             else None
           | None -> None))
@@ -1609,7 +2637,7 @@ let resolve self l m =
        (m0,
          (match get m0 o with
           | Some x ->
-            if decide (decide_rel Coq_Nat.lt_dec j (length x.o_fields))
+            if decide (decide_rel Coq0_Nat.lt_dec j (length x.o_fields))
             then Some (RField (o, j))
             else None
           | None -> None))
@@ -1621,7 +2649,7 @@ let wresolve self l m =
   match l with
   | WS i ->
     (m,
-      (if decide (decide_rel Coq_Nat.lt_dec i nslots)
+      (if decide (decide_rel Coq0_Nat.lt_dec i nslots)
        then Some (RWSlot i)
        else None))
   | WFS j ->
@@ -1630,7 +2658,7 @@ let wresolve self l m =
        (m,
          (match get m o with
           | Some x ->
-            if decide (decide_rel Coq_Nat.lt_dec j (length x.o_wfields))
+            if decide (decide_rel Coq0_Nat.lt_dec j (length x.o_wfields))
             then Some (RWField (o, j))
             else None
           | None -> None))
@@ -1642,7 +2670,7 @@ let wresolve self l m =
        (m0,
          (match get m0 o with
           | Some x ->
-            if decide (decide_rel Coq_Nat.lt_dec j (length x.o_wfields))
+            if decide (decide_rel Coq0_Nat.lt_dec j (length x.o_wfields))
             then Some (RWField (o, j))
             else None
           | None -> None))
@@ -1687,7 +2715,7 @@ let write_loc r v m =
       wparam = x.wparam; fuse_trace = x.fuse_trace; fuse_fin = x.fuse_fin;
       fuse_drop = x.fuse_drop; fuse_action = x.fuse_action; fuse_closure =
       x.fuse_closure; panicking = x.panicking; next_aid = x.next_aid; log =
-      x.log })) (insert0 list_insert i v) m
+      x.log; dead = x.dead })) (insert0 list_insert i v) m
   | RField (o, j) ->
     upd o (fun x ->
       set (fun o0 -> o0.o_fields) (fun f ->
@@ -1728,7 +2756,7 @@ let write_wloc r v m =
       wparam = x.wparam; fuse_trace = x.fuse_trace; fuse_fin = x.fuse_fin;
       fuse_drop = x.fuse_drop; fuse_action = x.fuse_action; fuse_closure =
       x.fuse_closure; panicking = x.panicking; next_aid = x.next_aid; log =
-      x.log })) (insert0 list_insert i v) m
+      x.log; dead = x.dead })) (insert0 list_insert i v) m
   | RWField (o, j) ->
     upd o (fun x ->
       set (fun o0 -> o0.o_wfields) (fun f ->
@@ -1760,7 +2788,7 @@ let traced_children p m p0 =
             then (m, [])
             else (m,
                    (omap (Obj.magic (fun _ _ -> list_omap)) (fun pat ->
-                     let (f, t) = pat in if t then f else None)
+                     let (f, t0) = pat in if t0 then f else None)
                      (zip_with (Obj.magic (fun x0 x1 -> (x0, x1))) x.o_fields
                        (class_of p x.o_cls).c_traced)))
           | _ -> ((emit_bad UseAfterDrop p0 m), []))
@@ -1890,8 +2918,8 @@ let rec counting k p fuel s =
              x.wparam; fuse_trace = x.fuse_trace; fuse_fin = x.fuse_fin;
              fuse_drop = x.fuse_drop; fuse_action = x.fuse_action;
              fuse_closure = x.fuse_closure; panicking = x.panicking;
-             next_aid = x.next_aid; log = x.log })) (fun _ -> rest)
-             (uhdr p0 (set_mark NM) m))
+             next_aid = x.next_aid; log = x.log; dead = x.dead })) (fun _ ->
+             rest) (uhdr p0 (set_mark NM) m))
        in
        let (s', boom) =
          process_counting k p { t_m = m0; t_root = s.t_root; t_non = s.t_non;
@@ -2020,7 +3048,7 @@ let rec adjust_up fuel thr alloc =
   match fuel with
   | O -> thr
   | S f ->
-    let t =
+    let t0 =
       N.modulo (N.mul thr (Npos (XO XH))) (Npos (XO (XO (XO (XO (XO (XO (XO
         (XO (XO (XO (XO (XO (XO (XO (XO (XO (XO (XO (XO (XO (XO (XO (XO (XO
         (XO (XO (XO (XO (XO (XO (XO (XO (XO (XO (XO (XO (XO (XO (XO (XO (XO
@@ -2028,7 +3056,7 @@ let rec adjust_up fuel thr alloc =
         (XO (XO (XO (XO (XO (XO
         XH)))))))))))))))))))))))))))))))))))))))))))))))))))))))))))))))))
     in
-    if N.ltb alloc t then t else adjust_up f t alloc
+    if N.ltb alloc t0 then t0 else adjust_up f t0 alloc
 
 (** val adjust_down : conf -> nat -> n -> n -> n -> n -> n **)
 
@@ -2037,12 +3065,12 @@ let rec adjust_down k fuel thr alloc num e =
   | O -> thr
   | S f ->
     if fle_prod alloc thr num e
-    then let t = N.shiftr thr (Npos XH) in
-         if N.leb t alloc
+    then let t0 = N.shiftr thr (Npos XH) in
+         if N.leb t0 alloc
          then thr
-         else if N.leb t k.k_thr0
+         else if N.leb t0 k.k_thr0
               then k.k_thr0
-              else adjust_down k f t alloc num e
+              else adjust_down k f t0 alloc num e
     else thr
 
 (** val adjust : conf -> machine -> machine **)
@@ -2061,7 +3089,7 @@ let adjust k m =
          fuse_trace = x.fuse_trace; fuse_fin = x.fuse_fin; fuse_drop =
          x.fuse_drop; fuse_action = x.fuse_action; fuse_closure =
          x.fuse_closure; panicking = x.panicking; next_aid = x.next_aid;
-         log = x.log })) (fun _ ->
+         log = x.log; dead = x.dead })) (fun _ ->
          adjust_up (S (S (S (S (S (S (S (S (S (S (S (S (S (S (S (S (S (S (S
            (S (S (S (S (S (S (S (S (S (S (S (S (S (S (S (S (S (S (S (S (S (S
            (S (S (S (S (S (S (S (S (S (S (S (S (S (S (S (S (S (S (S (S (S (S
@@ -2082,7 +3110,7 @@ let adjust k m =
               x.wparam; fuse_trace = x.fuse_trace; fuse_fin = x.fuse_fin;
               fuse_drop = x.fuse_drop; fuse_action = x.fuse_action;
               fuse_closure = x.fuse_closure; panicking = x.panicking;
-              next_aid = x.next_aid; log = x.log })) (fun _ ->
+              next_aid = x.next_aid; log = x.log; dead = x.dead })) (fun _ ->
               adjust_down k (S (S (S (S (S (S (S (S (S (S (S (S (S (S (S (S
                 (S (S (S (S (S (S (S (S (S (S (S (S (S (S (S (S (S (S (S (S
                 (S (S (S (S (S (S (S (S (S (S (S (S (S (S (S (S (S (S (S (S
@@ -2174,7 +3202,7 @@ let unwinding f m =
         bag = x.bag; wparam = x.wparam; fuse_trace = x.fuse_trace; fuse_fin =
         x.fuse_fin; fuse_drop = x.fuse_drop; fuse_action = x.fuse_action;
         fuse_closure = x.fuse_closure; panicking = (b x); next_aid =
-        x.next_aid; log = x.log })) (fun _ -> true) m)
+        x.next_aid; log = x.log; dead = x.dead })) (fun _ -> true) m)
   in
   ((set (fun m0 -> m0.panicking) (fun f0 ->
      let b = fun r0 -> f0 r0.panicking in
@@ -2186,8 +3214,8 @@ let unwinding f m =
      wslots = x.wslots; cslots = x.cslots; values = x.values; bag = x.bag;
      wparam = x.wparam; fuse_trace = x.fuse_trace; fuse_fin = x.fuse_fin;
      fuse_drop = x.fuse_drop; fuse_action = x.fuse_action; fuse_closure =
-     x.fuse_closure; panicking = (b x); next_aid = x.next_aid; log = x.log }))
-     (fun _ -> old) m'),
+     x.fuse_closure; panicking = (b x); next_aid = x.next_aid; log = x.log;
+     dead = x.dead })) (fun _ -> old) m'),
   (match r with
    | ONormal -> if old then OAbort else OPanic
    | OPanic -> if old then OAbort else OPanic
@@ -2209,7 +3237,7 @@ let new_node p cls0 m =
      wparam = x.wparam; fuse_trace = x.fuse_trace; fuse_fin = x.fuse_fin;
      fuse_drop = x.fuse_drop; fuse_action = x.fuse_action; fuse_closure =
      x.fuse_closure; panicking = x.panicking; next_aid = x.next_aid; log =
-     x.log })) (fun h ->
+     x.log; dead = x.dead })) (fun h ->
      app h ({ o_hdr = (hdr_new false); o_vst = VLive; o_box = BNotYet;
        o_side = None; o_cls = cls0; o_ismap = false; o_fields =
        (replicate c.c_nf None); o_wfields = (replicate c.c_nw None);
@@ -2231,7 +3259,7 @@ let new_map m =
      wparam = x.wparam; fuse_trace = x.fuse_trace; fuse_fin = x.fuse_fin;
      fuse_drop = x.fuse_drop; fuse_action = x.fuse_action; fuse_closure =
      x.fuse_closure; panicking = x.panicking; next_aid = x.next_aid; log =
-     x.log })) (fun h ->
+     x.log; dead = x.dead })) (fun h ->
      app h ({ o_hdr = (hdr_new false); o_vst = VLive; o_box = BNotYet;
        o_side = None; o_cls = O; o_ismap = true; o_fields = []; o_wfields =
        []; o_cleaner = None; o_borrowed = false; o_mslots = []; o_mfree = [];
@@ -2274,7 +3302,8 @@ let box_alloc k o m =
           x0.wparam; fuse_trace = x0.fuse_trace; fuse_fin = x0.fuse_fin;
           fuse_drop = x0.fuse_drop; fuse_action = x0.fuse_action;
           fuse_closure = x0.fuse_closure; panicking = x0.panicking;
-          next_aid = x0.next_aid; log = x0.log })) (fun a -> N.add a sz) m))
+          next_aid = x0.next_aid; log = x0.log; dead = x0.dead })) (fun a ->
+          N.add a sz) m))
   | None -> emit_bad BadState o m
 
 (** val step_script :
@@ -2298,7 +3327,7 @@ let step_store rec0 r v m =
   let old = read_loc r m in
   let m0 = write_loc r (Some v) m in
   (match old with
-   | Some t -> rec0 (KDropCc t) m0
+   | Some t0 -> rec0 (KDropCc t0) m0
    | None -> (m0, ONormal))
 
 (** val step_drop_cc :
@@ -2335,8 +3364,8 @@ let step_drop_cc k p rec0 o m =
                          x0.fuse_trace; fuse_fin = x0.fuse_fin; fuse_drop =
                          x0.fuse_drop; fuse_action = x0.fuse_action;
                          fuse_closure = x0.fuse_closure; panicking =
-                         x0.panicking; next_aid = x0.next_aid; log = x0.log }))
-                         (fun _ -> true) m1
+                         x0.panicking; next_aid = x0.next_aid; log = x0.log;
+                         dead = x0.dead })) (fun _ -> true) m1
                      in
                      let m3 = uhdr o (set_fin true) m2 in
                      let (m4, r) =
@@ -2370,8 +3399,9 @@ let step_drop_cc k p rec0 o m =
                                  x0.fuse_fin; fuse_drop = x0.fuse_drop;
                                  fuse_action = x0.fuse_action; fuse_closure =
                                  x0.fuse_closure; panicking = x0.panicking;
-                                 next_aid = x0.next_aid; log = x0.log }))
-                                 (fun _ -> old_f) m4), ONormal), true)
+                                 next_aid = x0.next_aid; log = x0.log; dead =
+                                 x0.dead })) (fun _ -> old_f) m4), ONormal),
+                               true)
                         else (((set (fun m5 -> m5.st_finalizing) (fun f ->
                                  let b = fun r0 -> f r0.st_finalizing in
                                  (fun x0 -> { heap = x0.heap; pc = x0.pc;
@@ -2389,8 +3419,8 @@ let step_drop_cc k p rec0 o m =
                                  x0.fuse_fin; fuse_drop = x0.fuse_drop;
                                  fuse_action = x0.fuse_action; fuse_closure =
                                  x0.fuse_closure; panicking = x0.panicking;
-                                 next_aid = x0.next_aid; log = x0.log }))
-                                 (fun _ -> old_f)
+                                 next_aid = x0.next_aid; log = x0.log; dead =
+                                 x0.dead })) (fun _ -> old_f)
                                  (add_to_list o (dec_rc_m o m4))), ONormal),
                                false)
                       | _ ->
@@ -2410,7 +3440,8 @@ let step_drop_cc k p rec0 o m =
                             fuse_drop = x0.fuse_drop; fuse_action =
                             x0.fuse_action; fuse_closure = x0.fuse_closure;
                             panicking = x0.panicking; next_aid = x0.next_aid;
-                            log = x0.log })) (fun _ -> old_f) m4), r), false))
+                            log = x0.log; dead = x0.dead })) (fun _ -> old_f)
+                            m4), r), false))
                 else ((m1, ONormal), true)
               in
               let (p0, go) = fin_step m0 in
@@ -2435,8 +3466,8 @@ let step_drop_cc k p rec0 o m =
                        x0.fuse_trace; fuse_fin = x0.fuse_fin; fuse_drop =
                        x0.fuse_drop; fuse_action = x0.fuse_action;
                        fuse_closure = x0.fuse_closure; panicking =
-                       x0.panicking; next_aid = x0.next_aid; log = x0.log }))
-                       (fun _ -> true) m3
+                       x0.panicking; next_aid = x0.next_aid; log = x0.log;
+                       dead = x0.dead })) (fun _ -> true) m3
                    in
                    let m5 = if k.k_weak then uhdr o set_dropped m4 else m4 in
                    let (m6, r0) = rec0 (KDropValue o) m5 in
@@ -2459,7 +3490,8 @@ let step_drop_cc k p rec0 o m =
                          fuse_drop = x0.fuse_drop; fuse_action =
                          x0.fuse_action; fuse_closure = x0.fuse_closure;
                          panicking = x0.panicking; next_aid = x0.next_aid;
-                         log = x0.log })) (fun _ -> old_d) m8), ONormal)
+                         log = x0.log; dead = x0.dead })) (fun _ -> old_d) m8),
+                      ONormal)
                     | _ ->
                       ((set (fun m7 -> m7.st_dropping) (fun f ->
                          let b = fun r1 -> f r1.st_dropping in
@@ -2476,7 +3508,8 @@ let step_drop_cc k p rec0 o m =
                          fuse_drop = x0.fuse_drop; fuse_action =
                          x0.fuse_action; fuse_closure = x0.fuse_closure;
                          panicking = x0.panicking; next_aid = x0.next_aid;
-                         log = x0.log })) (fun _ -> old_d) m6), r0))
+                         log = x0.log; dead = x0.dead })) (fun _ -> old_d) m6),
+                        r0))
          else ((add_to_list o (dec_rc_m o m0)), ONormal)
   | None -> ((emit_bad BadState o m), ONormal)
 
@@ -2595,7 +3628,7 @@ let step_drop_value k p rec0 o m =
 let step_drop_fields rec0 o j m =
   match get m o with
   | Some x ->
-    if decide (decide_rel Coq_Nat.lt_dec j (length x.o_fields))
+    if decide (decide_rel Coq0_Nat.lt_dec j (length x.o_fields))
     then let f =
            mjoin (Obj.magic (fun _ -> option_join))
              (lookup0 list_lookup j x.o_fields)
@@ -2613,7 +3646,7 @@ let step_drop_fields rec0 o j m =
          in
          let (m1, r) =
            match f with
-           | Some t -> rec0 (KDropCc (Obj.magic t)) m0
+           | Some t0 -> rec0 (KDropCc (Obj.magic t0)) m0
            | None -> (m0, ONormal)
          in
          (match r with
@@ -2634,8 +3667,8 @@ let step_drop_fields rec0 o j m =
                (fmap (fun _ _ -> list_fmap) (fun _ -> None)) x0) m0
          in
          (match x.o_cleaner with
-          | Some t ->
-            rec0 (KDropCc t)
+          | Some t0 ->
+            rec0 (KDropCc t0)
               (upd o (fun x0 ->
                 set (fun o0 -> o0.o_cleaner) (fun f ->
                   let o0 = fun r -> f r.o_cleaner in
@@ -2737,7 +3770,7 @@ let step_collect k rec0 m =
       wparam = x.wparam; fuse_trace = x.fuse_trace; fuse_fin = x.fuse_fin;
       fuse_drop = x.fuse_drop; fuse_action = x.fuse_action; fuse_closure =
       x.fuse_closure; panicking = x.panicking; next_aid = x.next_aid; log =
-      x.log })) N.succ
+      x.log; dead = x.dead })) N.succ
       (set (fun m0 -> m0.st_collecting) (fun f ->
         let b = fun r -> f r.st_collecting in
         (fun x -> { heap = x.heap; pc = x.pc; pc_size = x.pc_size; pc_alive =
@@ -2749,7 +3782,7 @@ let step_collect k rec0 m =
         wparam = x.wparam; fuse_trace = x.fuse_trace; fuse_fin = x.fuse_fin;
         fuse_drop = x.fuse_drop; fuse_action = x.fuse_action; fuse_closure =
         x.fuse_closure; panicking = x.panicking; next_aid = x.next_aid; log =
-        x.log })) (fun _ -> true) m)
+        x.log; dead = x.dead })) (fun _ -> true) m)
   in
   let (m1, r) =
     rec0 (KCollectLoop
@@ -2765,8 +3798,8 @@ let step_collect k rec0 m =
      cslots = x.cslots; values = x.values; bag = x.bag; wparam = x.wparam;
      fuse_trace = x.fuse_trace; fuse_fin = x.fuse_fin; fuse_drop =
      x.fuse_drop; fuse_action = x.fuse_action; fuse_closure = x.fuse_closure;
-     panicking = x.panicking; next_aid = x.next_aid; log = x.log }))
-     (fun _ -> false) m1), r)
+     panicking = x.panicking; next_aid = x.next_aid; log = x.log; dead =
+     x.dead })) (fun _ -> false) m1), r)
 
 (** val step_collect_loop :
     (call -> machine -> machine * outcome) -> nat -> machine ->
@@ -2804,7 +3837,7 @@ let step_collect_once k p rec0 m =
         bag = x.bag; wparam = x.wparam; fuse_trace = x.fuse_trace; fuse_fin =
         x.fuse_fin; fuse_drop = x.fuse_drop; fuse_action = x.fuse_action;
         fuse_closure = x.fuse_closure; panicking = x.panicking; next_aid =
-        x.next_aid; log = x.log })) (fun _ -> false)
+        x.next_aid; log = x.log; dead = x.dead })) (fun _ -> false)
         (set (fun m0 -> m0.st_finalizing) (fun f ->
           let b = fun r -> f r.st_finalizing in
           (fun x -> { heap = x.heap; pc = x.pc; pc_size = x.pc_size;
@@ -2816,8 +3849,8 @@ let step_collect_once k p rec0 m =
           values = x.values; bag = x.bag; wparam = x.wparam; fuse_trace =
           x.fuse_trace; fuse_fin = x.fuse_fin; fuse_drop = x.fuse_drop;
           fuse_action = x.fuse_action; fuse_closure = x.fuse_closure;
-          panicking = x.panicking; next_aid = x.next_aid; log = x.log }))
-          (fun _ -> false) m))
+          panicking = x.panicking; next_aid = x.next_aid; log = x.log; dead =
+          x.dead })) (fun _ -> false) m))
   in
   let m1 =
     set (fun m1 -> m1.st_dropping) (fun f ->
@@ -2831,7 +3864,7 @@ let step_collect_once k p rec0 m =
       x.wparam; fuse_trace = x.fuse_trace; fuse_fin = x.fuse_fin; fuse_drop =
       x.fuse_drop; fuse_action = x.fuse_action; fuse_closure =
       x.fuse_closure; panicking = x.panicking; next_aid = x.next_aid; log =
-      x.log })) (fun _ -> old_d)
+      x.log; dead = x.dead })) (fun _ -> old_d)
       (set (fun m1 -> m1.st_finalizing) (fun f ->
         let b = fun r -> f r.st_finalizing in
         (fun x -> { heap = x.heap; pc = x.pc; pc_size = x.pc_size; pc_alive =
@@ -2843,7 +3876,7 @@ let step_collect_once k p rec0 m =
         wparam = x.wparam; fuse_trace = x.fuse_trace; fuse_fin = x.fuse_fin;
         fuse_drop = x.fuse_drop; fuse_action = x.fuse_action; fuse_closure =
         x.fuse_closure; panicking = x.panicking; next_aid = x.next_aid; log =
-        x.log })) (fun _ -> old_f) m0)
+        x.log; dead = x.dead })) (fun _ -> old_f) m0)
   in
   (match pr with
    | PDone l ->
@@ -2865,24 +3898,39 @@ let step_collect_once k p rec0 m =
                  wparam = x.wparam; fuse_trace = x.fuse_trace; fuse_fin =
                  x.fuse_fin; fuse_drop = x.fuse_drop; fuse_action =
                  x.fuse_action; fuse_closure = x.fuse_closure; panicking =
-                 x.panicking; next_aid = x.next_aid; log = x.log }))
-                 (fun _ -> true) m1)
+                 x.panicking; next_aid = x.next_aid; log = x.log; dead =
+                 x.dead })) (fun _ -> true) m1)
         else let old_d0 = m1.st_dropping in
              rec0 (KDropList (l, l, old_d0))
-               (set (fun m2 -> m2.st_dropping) (fun f ->
-                 let b = fun r -> f r.st_dropping in
+               (set (fun m2 -> m2.dead) (fun f ->
+                 let l0 = fun r -> f r.dead in
                  (fun x -> { heap = x.heap; pc = x.pc; pc_size = x.pc_size;
                  pc_alive = x.pc_alive; st_collecting = x.st_collecting;
-                 st_finalizing = x.st_finalizing; st_dropping = (b x);
-                 st_alloc = x.st_alloc; st_exec = x.st_exec; cf_thr =
-                 x.cf_thr; cf_pnum = x.cf_pnum; cf_pexp = x.cf_pexp; cf_buf =
-                 x.cf_buf; cf_auto = x.cf_auto; slots = x.slots; wslots =
-                 x.wslots; cslots = x.cslots; values = x.values; bag = x.bag;
-                 wparam = x.wparam; fuse_trace = x.fuse_trace; fuse_fin =
-                 x.fuse_fin; fuse_drop = x.fuse_drop; fuse_action =
-                 x.fuse_action; fuse_closure = x.fuse_closure; panicking =
-                 x.panicking; next_aid = x.next_aid; log = x.log }))
-                 (fun _ -> true) m1))
+                 st_finalizing = x.st_finalizing; st_dropping =
+                 x.st_dropping; st_alloc = x.st_alloc; st_exec = x.st_exec;
+                 cf_thr = x.cf_thr; cf_pnum = x.cf_pnum; cf_pexp = x.cf_pexp;
+                 cf_buf = x.cf_buf; cf_auto = x.cf_auto; slots = x.slots;
+                 wslots = x.wslots; cslots = x.cslots; values = x.values;
+                 bag = x.bag; wparam = x.wparam; fuse_trace = x.fuse_trace;
+                 fuse_fin = x.fuse_fin; fuse_drop = x.fuse_drop;
+                 fuse_action = x.fuse_action; fuse_closure = x.fuse_closure;
+                 panicking = x.panicking; next_aid = x.next_aid; log = x.log;
+                 dead = (l0 x) })) (app l)
+                 (set (fun m2 -> m2.st_dropping) (fun f ->
+                   let b = fun r -> f r.st_dropping in
+                   (fun x -> { heap = x.heap; pc = x.pc; pc_size = x.pc_size;
+                   pc_alive = x.pc_alive; st_collecting = x.st_collecting;
+                   st_finalizing = x.st_finalizing; st_dropping = (b x);
+                   st_alloc = x.st_alloc; st_exec = x.st_exec; cf_thr =
+                   x.cf_thr; cf_pnum = x.cf_pnum; cf_pexp = x.cf_pexp;
+                   cf_buf = x.cf_buf; cf_auto = x.cf_auto; slots = x.slots;
+                   wslots = x.wslots; cslots = x.cslots; values = x.values;
+                   bag = x.bag; wparam = x.wparam; fuse_trace = x.fuse_trace;
+                   fuse_fin = x.fuse_fin; fuse_drop = x.fuse_drop;
+                   fuse_action = x.fuse_action; fuse_closure =
+                   x.fuse_closure; panicking = x.panicking; next_aid =
+                   x.next_aid; log = x.log; dead = x.dead })) (fun _ -> true)
+                   m1)))
    | PPanicked -> (m1, (raise m1))
    | PFuel -> ((emit_bad Fuel O m1), OFuel))
 
@@ -2905,24 +3953,38 @@ let step_finalize_list k p rec0 l rest any old_f m =
         wparam = x.wparam; fuse_trace = x.fuse_trace; fuse_fin = x.fuse_fin;
         fuse_drop = x.fuse_drop; fuse_action = x.fuse_action; fuse_closure =
         x.fuse_closure; panicking = x.panicking; next_aid = x.next_aid; log =
-        x.log })) (fun _ -> old_f) m
+        x.log; dead = x.dead })) (fun _ -> old_f) m
     in
     if negb any
     then let old_d = m0.st_dropping in
          rec0 (KDropList (l, l, old_d))
-           (set (fun m1 -> m1.st_dropping) (fun f ->
-             let b = fun r -> f r.st_dropping in
+           (set (fun m1 -> m1.dead) (fun f ->
+             let l0 = fun r -> f r.dead in
              (fun x -> { heap = x.heap; pc = x.pc; pc_size = x.pc_size;
              pc_alive = x.pc_alive; st_collecting = x.st_collecting;
-             st_finalizing = x.st_finalizing; st_dropping = (b x); st_alloc =
-             x.st_alloc; st_exec = x.st_exec; cf_thr = x.cf_thr; cf_pnum =
-             x.cf_pnum; cf_pexp = x.cf_pexp; cf_buf = x.cf_buf; cf_auto =
-             x.cf_auto; slots = x.slots; wslots = x.wslots; cslots =
-             x.cslots; values = x.values; bag = x.bag; wparam = x.wparam;
-             fuse_trace = x.fuse_trace; fuse_fin = x.fuse_fin; fuse_drop =
-             x.fuse_drop; fuse_action = x.fuse_action; fuse_closure =
-             x.fuse_closure; panicking = x.panicking; next_aid = x.next_aid;
-             log = x.log })) (fun _ -> true) m0)
+             st_finalizing = x.st_finalizing; st_dropping = x.st_dropping;
+             st_alloc = x.st_alloc; st_exec = x.st_exec; cf_thr = x.cf_thr;
+             cf_pnum = x.cf_pnum; cf_pexp = x.cf_pexp; cf_buf = x.cf_buf;
+             cf_auto = x.cf_auto; slots = x.slots; wslots = x.wslots;
+             cslots = x.cslots; values = x.values; bag = x.bag; wparam =
+             x.wparam; fuse_trace = x.fuse_trace; fuse_fin = x.fuse_fin;
+             fuse_drop = x.fuse_drop; fuse_action = x.fuse_action;
+             fuse_closure = x.fuse_closure; panicking = x.panicking;
+             next_aid = x.next_aid; log = x.log; dead = (l0 x) })) (app l)
+             (set (fun m1 -> m1.st_dropping) (fun f ->
+               let b = fun r -> f r.st_dropping in
+               (fun x -> { heap = x.heap; pc = x.pc; pc_size = x.pc_size;
+               pc_alive = x.pc_alive; st_collecting = x.st_collecting;
+               st_finalizing = x.st_finalizing; st_dropping = (b x);
+               st_alloc = x.st_alloc; st_exec = x.st_exec; cf_thr = x.cf_thr;
+               cf_pnum = x.cf_pnum; cf_pexp = x.cf_pexp; cf_buf = x.cf_buf;
+               cf_auto = x.cf_auto; slots = x.slots; wslots = x.wslots;
+               cslots = x.cslots; values = x.values; bag = x.bag; wparam =
+               x.wparam; fuse_trace = x.fuse_trace; fuse_fin = x.fuse_fin;
+               fuse_drop = x.fuse_drop; fuse_action = x.fuse_action;
+               fuse_closure = x.fuse_closure; panicking = x.panicking;
+               next_aid = x.next_aid; log = x.log; dead = x.dead }))
+               (fun _ -> true) m0))
     else let m1 =
            fold_left (fun m1 g ->
              uhdr g (fun h -> set_mark PC (reset_tc h)) m1) l m0
@@ -2939,7 +4001,8 @@ let step_finalize_list k p rec0 l rest any old_f m =
             fuse_trace = x.fuse_trace; fuse_fin = x.fuse_fin; fuse_drop =
             x.fuse_drop; fuse_action = x.fuse_action; fuse_closure =
             x.fuse_closure; panicking = x.panicking; next_aid = x.next_aid;
-            log = x.log })) (fun s -> N.add (N.of_nat (length l)) s)
+            log = x.log; dead = x.dead })) (fun s ->
+            N.add (N.of_nat (length l)) s)
             (set (fun m2 -> m2.pc) (fun f ->
               let l0 = fun r -> f r.pc in
               (fun x -> { heap = x.heap; pc = (l0 x); pc_size = x.pc_size;
@@ -2952,8 +4015,8 @@ let step_finalize_list k p rec0 l rest any old_f m =
               x.wparam; fuse_trace = x.fuse_trace; fuse_fin = x.fuse_fin;
               fuse_drop = x.fuse_drop; fuse_action = x.fuse_action;
               fuse_closure = x.fuse_closure; panicking = x.panicking;
-              next_aid = x.next_aid; log = x.log })) (fun old -> app l old)
-              m1)), ONormal)
+              next_aid = x.next_aid; log = x.log; dead = x.dead }))
+              (fun old -> app l old) m1)), ONormal)
   | g :: rest' ->
     let h = hdr_of m g in
     if needs_fin h
@@ -2987,8 +4050,8 @@ let step_finalize_list k p rec0 l rest any old_f m =
                  wparam = x.wparam; fuse_trace = x.fuse_trace; fuse_fin =
                  x.fuse_fin; fuse_drop = x.fuse_drop; fuse_action =
                  x.fuse_action; fuse_closure = x.fuse_closure; panicking =
-                 x.panicking; next_aid = x.next_aid; log = x.log }))
-                 (fun _ -> old_f) m1)), r))
+                 x.panicking; next_aid = x.next_aid; log = x.log; dead =
+                 x.dead })) (fun _ -> old_f) m1)), r))
     else rec0 (KFinalizeList (l, rest', any, old_f)) m
 
 (** val step_drop_list :
@@ -3010,7 +4073,7 @@ let step_drop_list k rec0 l rest old_d m =
        wparam = x.wparam; fuse_trace = x.fuse_trace; fuse_fin = x.fuse_fin;
        fuse_drop = x.fuse_drop; fuse_action = x.fuse_action; fuse_closure =
        x.fuse_closure; panicking = x.panicking; next_aid = x.next_aid; log =
-       x.log })) (fun _ -> old_d) m0), ONormal)
+       x.log; dead = x.dead })) (fun _ -> old_d) m0), ONormal)
   | g :: rest' ->
     let m0 = if is_in_list (hdr_of m g) then m else emit_bad AssertFail g m in
     let m1 = if k.k_weak then uhdr g set_dropped m0 else m0 in
@@ -3035,8 +4098,8 @@ let step_drop_list k rec0 l rest old_d m =
           values = x.values; bag = x.bag; wparam = x.wparam; fuse_trace =
           x.fuse_trace; fuse_fin = x.fuse_fin; fuse_drop = x.fuse_drop;
           fuse_action = x.fuse_action; fuse_closure = x.fuse_closure;
-          panicking = x.panicking; next_aid = x.next_aid; log = x.log }))
-          (fun _ -> old_d) m3), r))
+          panicking = x.panicking; next_aid = x.next_aid; log = x.log; dead =
+          x.dead })) (fun _ -> old_d) m3), r))
 
 (** val step_unbag :
     (call -> machine -> machine * outcome) -> nat -> machine ->
@@ -3063,7 +4126,8 @@ let step_unbag rec0 k m =
              x.wparam; fuse_trace = x.fuse_trace; fuse_fin = x.fuse_fin;
              fuse_drop = x.fuse_drop; fuse_action = x.fuse_action;
              fuse_closure = x.fuse_closure; panicking = x.panicking;
-             next_aid = x.next_aid; log = x.log })) (fun _ -> b) m)
+             next_aid = x.next_aid; log = x.log; dead = x.dead })) (fun _ ->
+             b) m)
        in
        (match r with
         | ONormal -> rec0 (KUnbag k') m0
@@ -3078,8 +4142,8 @@ let cmd_new k p rec0 self dst cls0 m =
   (match r with
    | Some r0 ->
      let (m1, o) = new_node p cls0 m0 in
-     let (m2, t) = if k.k_auto then rec0 KTrigger m1 else (m1, ONormal) in
-     (match t with
+     let (m2, t0) = if k.k_auto then rec0 KTrigger m1 else (m1, ONormal) in
+     (match t0 with
       | ONormal ->
         let m3 = box_alloc k o m2 in
         let (m4, r') = rec0 (KStore (r0, o)) m3 in
@@ -3087,7 +4151,7 @@ let cmd_new k p rec0 self dst cls0 m =
          | ONormal -> ok m4 ROk
          | _ -> (m4, r'))
       | OPanic -> unwinding (rec0 (KDropValue o)) m2
-      | _ -> (m2, t))
+      | _ -> (m2, t0))
    | None -> ok m0 RSkip)
 
 (** val cmd_clone :
@@ -3342,8 +4406,8 @@ let cmd_try_unwrap k self l v m =
                             fuse_fin = x.fuse_fin; fuse_drop = x.fuse_drop;
                             fuse_action = x.fuse_action; fuse_closure =
                             x.fuse_closure; panicking = x.panicking;
-                            next_aid = x.next_aid; log = x.log }))
-                            (insert0 list_insert v (Some o)) m3
+                            next_aid = x.next_aid; log = x.log; dead =
+                            x.dead })) (insert0 list_insert v (Some o)) m3
                         in
                         let m5 = drop_metadata k o m4 in
                         let m6 = dealloc k o m5 in ok m6 RUnwrapOk
@@ -3371,7 +4435,8 @@ let cmd_drop_value rec0 _ v m =
         x.bag; wparam = x.wparam; fuse_trace = x.fuse_trace; fuse_fin =
         x.fuse_fin; fuse_drop = x.fuse_drop; fuse_action = x.fuse_action;
         fuse_closure = x.fuse_closure; panicking = x.panicking; next_aid =
-        x.next_aid; log = x.log })) (insert0 list_insert v None) m
+        x.next_aid; log = x.log; dead = x.dead }))
+        (insert0 list_insert v None) m
     in
     let (m1, r) = rec0 (KDropValue (Obj.magic o)) m0 in
     (match r with
@@ -3416,9 +4481,9 @@ let cmd_new_cyclic k p rec0 self dst cls0 script selfweak m =
                 o_mslots = x0.o_mslots; o_mfree = x0.o_mfree; o_mborrowed =
                 x0.o_mborrowed })) (fun _ -> VUninit) x) m1
           in
-          let (m3, t) = if k.k_auto then rec0 KTrigger m2 else (m2, ONormal)
+          let (m3, t0) = if k.k_auto then rec0 KTrigger m2 else (m2, ONormal)
           in
-          (match t with
+          (match t0 with
            | ONormal ->
              let m4 = box_alloc k o m3 in
              let m5 = init_side o m4 in
@@ -3440,8 +4505,8 @@ let cmd_new_cyclic k p rec0 self dst cls0 script selfweak m =
                  bag = x.bag; wparam = (l x); fuse_trace = x.fuse_trace;
                  fuse_fin = x.fuse_fin; fuse_drop = x.fuse_drop;
                  fuse_action = x.fuse_action; fuse_closure = x.fuse_closure;
-                 panicking = x.panicking; next_aid = x.next_aid; log =
-                 x.log })) (fun x -> (WTo o) :: x) m7
+                 panicking = x.panicking; next_aid = x.next_aid; log = x.log;
+                 dead = x.dead })) (fun x -> (WTo o) :: x) m7
              in
              let m9 = emit (ECb (KClosure, o, (cur_flags k m8))) m8 in
              let (m10, boom) = tick KClosure m9 in
@@ -3454,7 +4519,7 @@ let cmd_new_cyclic k p rec0 self dst cls0 script selfweak m =
               | ONormal ->
                 if (&&) selfweak
                      (bool_decide
-                       (decide_rel Coq_Nat.lt_dec O (class_of p cls0).c_nw))
+                       (decide_rel Coq0_Nat.lt_dec O (class_of p cls0).c_nw))
                 then (match weak_clone (WTo o) m11 with
                       | Some m12 ->
                         let m13 =
@@ -3510,7 +4575,7 @@ let cmd_new_cyclic k p rec0 self dst cls0 script selfweak m =
                                x.fuse_drop; fuse_action = x.fuse_action;
                                fuse_closure = x.fuse_closure; panicking =
                                x.panicking; next_aid = x.next_aid; log =
-                               x.log })) tl m15
+                               x.log; dead = x.dead })) tl m15
                            in
                            let m17 = weak_drop (WTo o) m16 in
                            let (m18, r3) = rec0 (KStore (r0, o)) m17 in
@@ -3537,7 +4602,7 @@ let cmd_new_cyclic k p rec0 self dst cls0 script selfweak m =
                                x.fuse_drop; fuse_action = x.fuse_action;
                                fuse_closure = x.fuse_closure; panicking =
                                x.panicking; next_aid = x.next_aid; log =
-                               x.log })) tl m14
+                               x.log; dead = x.dead })) tl m14
                            in
                            ((weak_drop (WTo o) m15), r''))
                       | None ->
@@ -3580,7 +4645,7 @@ let cmd_new_cyclic k p rec0 self dst cls0 script selfweak m =
                                x.fuse_drop; fuse_action = x.fuse_action;
                                fuse_closure = x.fuse_closure; panicking =
                                x.panicking; next_aid = x.next_aid; log =
-                               x.log })) tl m13
+                               x.log; dead = x.dead })) tl m13
                            in
                            let m15 = weak_drop (WTo o) m14 in
                            let (m16, r3) = rec0 (KStore (r0, o)) m15 in
@@ -3607,7 +4672,7 @@ let cmd_new_cyclic k p rec0 self dst cls0 script selfweak m =
                                x.fuse_drop; fuse_action = x.fuse_action;
                                fuse_closure = x.fuse_closure; panicking =
                                x.panicking; next_aid = x.next_aid; log =
-                               x.log })) tl m12
+                               x.log; dead = x.dead })) tl m12
                            in
                            ((weak_drop (WTo o) m13), r'')))
                 else let r'' = ONormal in
@@ -3647,7 +4712,8 @@ let cmd_new_cyclic k p rec0 self dst cls0 script selfweak m =
                             fuse_fin = x.fuse_fin; fuse_drop = x.fuse_drop;
                             fuse_action = x.fuse_action; fuse_closure =
                             x.fuse_closure; panicking = x.panicking;
-                            next_aid = x.next_aid; log = x.log })) tl m13
+                            next_aid = x.next_aid; log = x.log; dead =
+                            x.dead })) tl m13
                         in
                         let m15 = weak_drop (WTo o) m14 in
                         let (m16, r3) = rec0 (KStore (r0, o)) m15 in
@@ -3672,7 +4738,8 @@ let cmd_new_cyclic k p rec0 self dst cls0 script selfweak m =
                             fuse_fin = x.fuse_fin; fuse_drop = x.fuse_drop;
                             fuse_action = x.fuse_action; fuse_closure =
                             x.fuse_closure; panicking = x.panicking;
-                            next_aid = x.next_aid; log = x.log })) tl m12
+                            next_aid = x.next_aid; log = x.log; dead =
+                            x.dead })) tl m12
                         in
                         ((weak_drop (WTo o) m13), r''))
               | OFuel -> (m11, OFuel)
@@ -3692,10 +4759,11 @@ let cmd_new_cyclic k p rec0 self dst cls0 script selfweak m =
                     wparam = (l x); fuse_trace = x.fuse_trace; fuse_fin =
                     x.fuse_fin; fuse_drop = x.fuse_drop; fuse_action =
                     x.fuse_action; fuse_closure = x.fuse_closure; panicking =
-                    x.panicking; next_aid = x.next_aid; log = x.log })) tl m12
+                    x.panicking; next_aid = x.next_aid; log = x.log; dead =
+                    x.dead })) tl m12
                 in
                 ((weak_drop (WTo o) m13), r'))
-           | _ -> (m3, t))
+           | _ -> (m3, t0))
         | None -> ok m0 RSkip)
 
 (** val cmd_register :
@@ -3719,12 +4787,12 @@ let cmd_register k p rec0 self nd script c m =
                        | Some mo -> ((m0, mo), ONormal)
                        | None ->
                          let (m1, mo) = new_map m0 in
-                         let (m2, t) =
+                         let (m2, t0) =
                            if k.k_auto
                            then rec0 KTrigger m1
                            else (m1, ONormal)
                          in
-                         (match t with
+                         (match t0 with
                           | ONormal ->
                             let m3 = box_alloc k mo m2 in
                             (((upd o (fun x0 ->
@@ -3743,7 +4811,7 @@ let cmd_register k p rec0 self nd script c m =
                             let (m3, r) = unwinding (rec0 (KDropValue mo)) m2
                             in
                             ((m3, mo), r)
-                          | _ -> ((m2, mo), t))
+                          | _ -> ((m2, mo), t0))
                      in
                      let (m1, mo) = p0 in
                      (match r with
@@ -3774,7 +4842,8 @@ let cmd_register k p rec0 self nd script c m =
                                     x0.fuse_action; fuse_closure =
                                     x0.fuse_closure; panicking =
                                     x0.panicking; next_aid = (n0 x0); log =
-                                    x0.log })) (fun _ -> S aid) m1
+                                    x0.log; dead = x0.dead })) (fun _ -> S
+                                    aid) m1
                                 in
                                 let (m3, slot) = map_insert mo aid script m2
                                 in
@@ -3813,7 +4882,8 @@ let cmd_register k p rec0 self nd script c m =
                                        fuse_action = x0.fuse_action;
                                        fuse_closure = x0.fuse_closure;
                                        panicking = x0.panicking; next_aid =
-                                       x0.next_aid; log = x0.log }))
+                                       x0.next_aid; log = x0.log; dead =
+                                       x0.dead }))
                                        (insert0 list_insert c (Some
                                          { cr_map = mo; cr_slot = slot;
                                          cr_aid = aid })) m5
@@ -3878,7 +4948,7 @@ let cmd_clean k rec0 _ c m =
                                | MVacant -> (m2, ONormal)
                                | MAction (aid, script) ->
                                  if decide
-                                      (decide_rel Coq_Nat.eq_dec aid
+                                      (decide_rel Coq0_Nat.eq_dec aid
                                         (Obj.magic cr).cr_aid)
                                  then let m3 =
                                         upd mo (fun x ->
@@ -3968,8 +5038,8 @@ let cmd_c_drop k _ c m =
                 wparam = x.wparam; fuse_trace = x.fuse_trace; fuse_fin =
                 x.fuse_fin; fuse_drop = x.fuse_drop; fuse_action =
                 x.fuse_action; fuse_closure = x.fuse_closure; panicking =
-                x.panicking; next_aid = x.next_aid; log = x.log }))
-                (insert0 list_insert c None) m)) ROk
+                x.panicking; next_aid = x.next_aid; log = x.log; dead =
+                x.dead })) (insert0 list_insert c None) m)) ROk
         | None -> ok m RSkip)
 
 (** val cmd_bag : id0 option -> loc -> n -> machine -> machine * outcome **)
@@ -3998,8 +5068,8 @@ let cmd_bag self l k m =
                 (l0 x); wparam = x.wparam; fuse_trace = x.fuse_trace;
                 fuse_fin = x.fuse_fin; fuse_drop = x.fuse_drop; fuse_action =
                 x.fuse_action; fuse_closure = x.fuse_closure; panicking =
-                x.panicking; next_aid = x.next_aid; log = x.log })) (fun x ->
-                o :: x)
+                x.panicking; next_aid = x.next_aid; log = x.log; dead =
+                x.dead })) (fun x -> o :: x)
                 (remove_from_list (Obj.magic o)
                   (uhdr (Obj.magic o) (fun _ -> h) m1)))
           | None -> (m1, (raise m1)))
@@ -4071,7 +5141,7 @@ let cmd_cfg_auto k _ b m =
            fuse_trace = x.fuse_trace; fuse_fin = x.fuse_fin; fuse_drop =
            x.fuse_drop; fuse_action = x.fuse_action; fuse_closure =
            x.fuse_closure; panicking = x.panicking; next_aid = x.next_aid;
-           log = x.log })) (fun _ -> b) m) ROk
+           log = x.log; dead = x.dead })) (fun _ -> b) m) ROk
   else ok m RSkip
 
 (** val cmd_cfg_percent :
@@ -4094,8 +5164,8 @@ let cmd_cfg_percent k _ num e m =
                 wparam = x.wparam; fuse_trace = x.fuse_trace; fuse_fin =
                 x.fuse_fin; fuse_drop = x.fuse_drop; fuse_action =
                 x.fuse_action; fuse_closure = x.fuse_closure; panicking =
-                x.panicking; next_aid = x.next_aid; log = x.log })) (fun _ ->
-                e)
+                x.panicking; next_aid = x.next_aid; log = x.log; dead =
+                x.dead })) (fun _ -> e)
                 (set (fun m0 -> m0.cf_pnum) (fun f ->
                   let n0 = fun r -> f r.cf_pnum in
                   (fun x -> { heap = x.heap; pc = x.pc; pc_size = x.pc_size;
@@ -4109,7 +5179,7 @@ let cmd_cfg_percent k _ num e m =
                   fuse_fin = x.fuse_fin; fuse_drop = x.fuse_drop;
                   fuse_action = x.fuse_action; fuse_closure = x.fuse_closure;
                   panicking = x.panicking; next_aid = x.next_aid; log =
-                  x.log })) (fun _ -> num) m)) ROk
+                  x.log; dead = x.dead })) (fun _ -> num) m)) ROk
   else ok m RSkip
 
 (** val cmd_cfg_buffered :
@@ -4130,7 +5200,7 @@ let cmd_cfg_buffered k _ b m =
            fuse_trace = x.fuse_trace; fuse_fin = x.fuse_fin; fuse_drop =
            x.fuse_drop; fuse_action = x.fuse_action; fuse_closure =
            x.fuse_closure; panicking = x.panicking; next_aid = x.next_aid;
-           log = x.log })) (fun _ -> b) m) ROk
+           log = x.log; dead = x.dead })) (fun _ -> b) m) ROk
   else ok m RSkip
 
 (** val cmd_arm :
@@ -4281,3 +5351,226 @@ let exec_top k p fuel c m =
 
 let run_main k p fuel m =
   fold_left (fun m0 c -> exec_top k p fuel c m0) p.p_main m
+
+(** val eqb_oid : id0 option -> id0 -> bool **)
+
+let eqb_oid a o =
+  match a with
+  | Some x -> Coq_Nat.eqb x o
+  | None -> false
+
+(** val cnt_opt : id0 -> id0 option list -> nat **)
+
+let cnt_opt o l =
+  length
+    (filter0 (fun _ -> list_filter) (fun x ->
+      decide_rel bool_eq_dec (eqb_oid x o) true) l)
+
+(** val cnt_id : id0 -> id0 list -> nat **)
+
+let cnt_id o l =
+  length
+    (filter0 (fun _ -> list_filter) (fun x ->
+      decide_rel bool_eq_dec (Coq_Nat.eqb x o) true) l)
+
+(** val obj_refs : id0 -> obj -> nat **)
+
+let obj_refs o x =
+  add (cnt_opt o x.o_fields) (if eqb_oid x.o_cleaner o then S O else O)
+
+(** val heap_refs : machine -> id0 -> nat **)
+
+let heap_refs m o =
+  fold_right (fun x acc -> add (obj_refs o x) acc) O m.heap
+
+(** val ext_refs : machine -> id0 -> nat **)
+
+let ext_refs m o =
+  add (cnt_opt o m.slots) (cnt_id o m.bag)
+
+(** val refs : machine -> id0 -> nat **)
+
+let refs m o =
+  add (ext_refs m o) (heap_refs m o)
+
+(** val eqb_wref : wref option -> id0 -> bool **)
+
+let eqb_wref a o =
+  match a with
+  | Some w -> (match w with
+               | WNull -> false
+               | WTo x -> Coq_Nat.eqb x o)
+  | None -> false
+
+(** val cnt_w : id0 -> wref option list -> nat **)
+
+let cnt_w o l =
+  length
+    (filter0 (fun _ -> list_filter) (fun x ->
+      decide_rel bool_eq_dec (eqb_wref x o) true) l)
+
+(** val wrefs : machine -> id0 -> nat **)
+
+let wrefs m o =
+  add
+    (add (add (cnt_w o m.wslots) (cnt_w o (map (fun x -> Some x) m.wparam)))
+      (length
+        (filter0 (fun _ -> list_filter) (fun x ->
+          decide_rel bool_eq_dec
+            (match x with
+             | Some cr -> Coq_Nat.eqb cr.cr_map o
+             | None -> false) true) m.cslots)))
+    (fold_right (fun x acc -> add (cnt_w o x.o_wfields) acc) O m.heap)
+
+(** val is_alloc : obj -> bool **)
+
+let is_alloc x =
+  match x.o_box with
+  | BAlloc -> true
+  | _ -> false
+
+(** val is_live : obj -> bool **)
+
+let is_live x =
+  match x.o_vst with
+  | VLive -> true
+  | _ -> false
+
+(** val mem_id : id0 -> id0 list -> bool **)
+
+let mem_id o l =
+  existsb (Coq_Nat.eqb o) l
+
+(** val handle_locs : machine -> (id0 option * id0) list **)
+
+let handle_locs m =
+  app
+    (omap (Obj.magic (fun _ _ -> list_omap)) (fun a ->
+      match a with
+      | Some t0 -> Some (None, t0)
+      | None -> None) (Obj.magic m.slots))
+    (app (map (fun t0 -> (None, t0)) m.bag)
+      (concat
+        (imap (fun p x ->
+          app
+            (omap (Obj.magic (fun _ _ -> list_omap)) (fun a ->
+              match a with
+              | Some t0 -> Some ((Some p), t0)
+              | None -> None) (Obj.magic x.o_fields))
+            (match x.o_cleaner with
+             | Some t0 -> ((Some p), t0) :: []
+             | None -> [])) m.heap)))
+
+(** val obj_ok :
+    conf -> id0 list -> id0 list -> machine -> id0 -> obj -> bool **)
+
+let obj_ok k e d m o x =
+  let h = x.o_hdr in
+  (match x.o_box with
+   | BNotYet ->
+     (&&) (Coq_Nat.eqb (add (refs m o) (cnt_id o e)) O)
+       (Coq_Nat.eqb (wrefs m o) O)
+   | BAlloc ->
+     (&&)
+       ((&&)
+         ((&&)
+           ((&&)
+             ((&&) (N.leb (N.of_nat (add (refs m o) (cnt_id o e))) h.h_rc)
+               (N.leb h.h_rc max_rc))
+             (let dying =
+                match x.o_vst with
+                | VDropping -> true
+                | VDropped -> true
+                | _ -> false
+              in
+              if k.k_weak
+              then (&&) (implb dying (is_dropped h))
+                     (implb (is_dropped h) ((||) dying (mem_id o d)))
+              else (||) (negb (is_dropped h)) (negb (is_live x))))
+           (eqb h.h_side (match x.o_side with
+                          | Some _ -> true
+                          | None -> false)))
+         (match x.o_side with
+          | Some s ->
+            (&&)
+              ((&&) ((&&) (negb s.sd_freed) s.sd_wk.w_acc)
+                (N.eqb s.sd_wk.w_cnt (N.of_nat (wrefs m o))))
+              (N.leb s.sd_wk.w_cnt max_weak)
+          | None -> Coq_Nat.eqb (wrefs m o) O))
+       (match x.o_vst with
+        | VMoved -> false
+        | _ -> true)
+   | BFreed ->
+     (&&)
+       ((&&) (Coq_Nat.eqb (add (refs m o) (cnt_id o e)) O) (negb (is_live x)))
+       (match x.o_side with
+        | Some s ->
+          if s.sd_freed
+          then Coq_Nat.eqb (wrefs m o) O
+          else (&&)
+                 ((&&) (negb s.sd_wk.w_acc)
+                   (N.eqb s.sd_wk.w_cnt (N.of_nat (wrefs m o))))
+                 (negb (N.eqb s.sd_wk.w_cnt N0))
+        | None -> Coq_Nat.eqb (wrefs m o) O))
+
+(** val loc_ok : id0 list -> machine -> (id0 option * id0) -> bool **)
+
+let loc_ok d m = function
+| (holder, t0) ->
+  (match lookup0 list_lookup t0 m.heap with
+   | Some xt ->
+     (&&) (is_alloc xt)
+       (let outside =
+          match holder with
+          | Some p ->
+            (match lookup0 list_lookup p m.heap with
+             | Some xp -> (&&) (is_live xp) (negb (mem_id p d))
+             | None -> false)
+          | None -> true
+        in
+        if outside then (&&) (is_live xt) (negb (mem_id t0 d)) else true)
+   | None -> false)
+
+(** val inv_b : conf -> id0 list -> machine -> bool **)
+
+let inv_b k e m =
+  let d = m.dead in
+  (&&)
+    ((&&)
+      (forallb (fun pat -> let (o, x) = pat in obj_ok k e d m o x)
+        (imap (fun o x -> (o, x)) m.heap))
+      (forallb (loc_ok d m) (handle_locs m)))
+    (forallb (fun t0 ->
+      match lookup0 list_lookup t0 m.heap with
+      | Some xt -> is_alloc xt
+      | None -> false) e)
+
+(** val exact_b : id0 list -> machine -> bool **)
+
+let exact_b e m =
+  forallb (fun pat ->
+    let (o, x) = pat in
+    if is_alloc x
+    then N.eqb x.o_hdr.h_rc (N.of_nat (add (refs m o) (cnt_id o e)))
+    else true) (imap (fun o x -> (o, x)) m.heap)
+
+(** val no_panic_yet : machine -> bool **)
+
+let no_panic_yet m =
+  forallb (fun e ->
+    match e with
+    | ERes r -> (match r with
+                 | RPanicked -> false
+                 | _ -> true)
+    | _ -> true) m.log
+
+(** val no_bad : machine -> bool **)
+
+let no_bad m =
+  forallb (fun e ->
+    match e with
+    | EBad (b, _) -> (match b with
+                      | Abort -> true
+                      | Fuel -> true
+                      | _ -> false)
+    | _ -> true) m.log
